@@ -203,6 +203,9 @@ func TestVerif_C28(t *testing.T) {
 	r.Require("ack_frames_consumed", 1000)
 	r.Require("long_packets_roundtrip", 1000)
 	r.Require("short_packets_roundtrip", 1000)
+	r.Require("conversation_packets_delivered", 10000)
+	r.Require("conversation_key_updates_completed", 300)
+	r.Require("conversation_second_or_later_local_key_updates", 100)
 	r.Require("packet_bitflips_rejected", 50000)
 	r.Require("tparams_roundtrip", 2000)
 	r.Require("tparams_out_of_range_rejected", 2000)
